@@ -19,12 +19,13 @@ func init() {
 		Pkgs:      []string{"container"},
 		Run:       runC14,
 		Technique: "static analysis: must-pass-through path queries and guard dominance on go/ssa of container/ringbuffer.go (zeroing before the read index advances, wrap test after every index advance, full/empty/range guards and their error classes, slot-boundary operator)",
-		Explanation: "R1: every advance of the read index (in the methods of the ring and in the private helpers they call) is preceded on all paths by a zero-value store (direct, via SliceFill with the zero value, or via a helper that always does one of these) into the backing array or a sub-slice of it, so consumed slots do not keep references. " +
-			"R2: every non-reset store to the read or write index stores a value that is known to be a valid slot - taken modulo len(buf); guarded by value < len(buf) (or != len(buf)); a phi/helper result each alternative of which is 0 or so guarded; a count clamped to Len(); or (index + count clamped to Len()) - len(buf) on the >= len(buf) branch - or is followed, before the exit or the next use of that index, by the comparison of the updated index with len(buf) whose at-or-behind-the-end edge (true edge of ==, >=; false edge of !=, <) resets it to 0. " +
+		Explanation: "Roles: the indices are the int fields of the ring (also inside a struct it holds by value) that Read resp. Write advance; a parameter of a private helper to which every call passes len(buf) stands for len(buf). " +
+			"R1: every advance of the read index (in the methods of the ring and in the private helpers they call; a call of a private helper that only does the index arithmetic counts as the advance where it is called; index -= len(buf) is the same slot and no advance) is preceded on all paths by a zero-value store (direct, via SliceFill with the zero value, or via a helper that always does one of these) into the backing array or a sub-slice of it, so consumed slots do not keep references. " +
+			"R2: every non-reset store to the read or write index stores a value that is known to be a valid slot - taken modulo len(buf); guarded by value < len(buf) (or != len(buf)); a phi/helper result each alternative of which is 0 or so guarded; a count clamped to Len(); or (index + count clamped to Len()) - len(buf) on the >= len(buf) branch - or is proved to lie in [0, len(buf)-1] by symbolic linear bounds (atoms len(buf), the indices on entry in [0, len(buf)-1], Len() in [0, len(buf)-1], copy() <= len(src); one evaluation per choice of phi edges with the branch facts of the chosen edges; all choices must succeed) - or is followed, before the exit or the next use of that index, by the comparison of the updated index with len(buf) whose at-or-behind-the-end edge (true edge of ==, >=; false edge of !=, <) resets it to 0, or subtracts len(buf) from it when the advanced index is proved to be below 2*len(buf). A store of 0 to one index alone must sit on such an edge (reported when it does not). " +
 			"R3: the store in Write is dominated by the not-full edge of Len()==Cap() and the full edge returns an error wrapping ErrExhausted; the load in Read is dominated by the not-empty edge (Len() != 0, or read index != write index) and the empty edge returns io.EOF; every load in At is dominated by the in-range edges of idx<0 || idx>=Len() and the out-of-range edge panics. " +
 			"R4: the constructor allocates size+1 slots and Cap() returns len(buf)-1. " +
-			"R6: the count a caller passes to Skip is clamped to Len() (guard or phi over the clamped edge) before it is added to an index. " +
-			"R5: where At folds read index + i back into the array, the fold (subtract len(buf), as an offset variable, a re-assigned position or a separate load) is selected by the test >= len(buf), or is the remainder modulo len(buf): slot len(buf) does not exist. R7: a readable segment whose end is chosen by the order of read and write index is taken only behind a not-empty test that holds from the entry and from every advance of the read index. R8: helpers the buffer hands parts of its backing array to re-slice them with a constant bound only behind a test that the part is that long.",
+			"R6: the count a caller passes to Skip is clamped to Len(), len(buf) or another quantity of the buffer state that cannot exceed len(buf) (guard or phi over the clamped edge) before it is added to an index; the parameters of a private helper count as requests unless every call passes a count that is already clamped or was not a request. " +
+			"R5: where At folds read index + i back into the array, the fold (subtract len(buf), as an offset variable, a re-assigned position or a separate load) is selected by the test >= len(buf), or is the remainder modulo len(buf): slot len(buf) does not exist; other spellings (two-segment views, an offset len(buf)-r, a slot helper) are located symbolically: a load at read index + idx - len(buf) must sit behind a test that says exactly read index + idx - len(buf) >= 0. R7: a readable segment whose end is chosen by the order of read and write index (by the value of its upper bound, or by a branch on the order of the indices that selects the segment up to the end of the array) is taken only behind a test that the indices differ (Len() > 0, r != w, r < w, r > w, also made by a boolean or classifying helper) that holds from the entry and from every advance of the read index; buf[r:w] alone is the empty segment when the ring is empty. R8: helpers the buffer hands parts of its backing array to re-slice them with a constant bound only behind a test that the part is that long.",
 		NotDecided: "FIFO order, the min(requested, Len) arithmetic of ReadN/Skip, the Len() formula: value statements. This is the thinnest claim of the twenty.",
 	})
 }
@@ -37,6 +38,7 @@ type c14 struct {
 	rIdx, wIdx   *types.Var
 	lenFn, capFn *ssa.Function
 	pkg          *ssa.Package
+	sites        map[*ssa.Function]*c14sites
 }
 
 func c14root(fn *ssa.Function) *ssa.Function {
@@ -113,7 +115,7 @@ func (k *c14) bufDerivedRec(v ssa.Value, seen map[ssa.Value]bool) bool {
 func (k *c14) isLenBuf(v ssa.Value) bool {
 	call, ok := ir.Resolve(v).(*ssa.Call)
 	if !ok {
-		return false
+		return k.lenBufParam(ir.Resolve(v), 0)
 	}
 	cc := builtinCall(call, "len")
 	return cc != nil && k.isBufLoad(cc.Args[0])
@@ -178,6 +180,7 @@ func (k *c14) expandFacts(fs []ir.Fact, depth int) []ir.Fact {
 	}
 	res := append([]ir.Fact{}, fs...)
 	for _, f := range fs {
+		res = append(res, k.expandFacts(k.classifierFacts(f), depth+1)...)
 		f = f.StripNot()
 		call, ok := ir.Resolve(f.Cond).(*ssa.Call)
 		if !ok {
@@ -392,8 +395,8 @@ func (k *c14) nonNeg(v ssa.Value, fs []ir.Fact, depth int) bool {
 	if c, ok := ir.ConstInt(v); ok {
 		return c >= 0
 	}
-	if k.lenCall(v) || k.capCall(v) {
-		return true
+	if k.lenCall(v) || k.capCall(v) || k.isIdxLoad(v) {
+		return true // (an index is a slot number, or len(buf) between an advance and its wrap test)
 	}
 	for _, ft := range fs {
 		cm, ok := ft.Cmp()
@@ -601,6 +604,11 @@ func (k *c14) wrapIf(x ssa.Instruction, f *types.Var, v ssa.Value) bool {
 		if k.isReset(y, f) {
 			return true
 		}
+		// the other spelling of the wrap: subtract len(buf) on the at-or-behind-the-end edge. It yields a valid slot when
+		// the advanced index is known to be below 2*len(buf) (a valid slot plus a count of at most len(buf))
+		if k.isFoldStore(y, f) && k.belowTwiceLin(iff, a) {
+			return true
+		}
 	}
 	return false
 }
@@ -626,7 +634,7 @@ func runC14(c *Ctx) {
 	// advances
 	advanced := func(fn *ssa.Function) *types.Var {
 		var res []*types.Var
-		for _, f := range fieldsWhere(ring, func(f *types.Var) bool { return types.Identical(f.Type(), types.Typ[types.Int]) }) {
+		for _, f := range c14intFieldsDeep(ring) {
 			found := false
 			for _, g := range k.closure(fn) {
 				ir.Instrs(g, func(in ssa.Instruction) {
@@ -654,7 +662,6 @@ func runC14(c *Ctx) {
 	}
 	k.rIdx, k.wIdx = rIdx, wIdx
 
-	isBufLoad := k.isBufLoad
 	isLenBuf := k.isLenBuf
 	// a helper that zeroes on every path counts as zeroing where it is called
 	zeroEff := ir.NewEffects(c.P, k.zeroing)
@@ -717,19 +724,53 @@ func runC14(c *Ctx) {
 		}
 	}
 
-	for _, fn := range scope {
-		c.Saw(fn)
-		// R1
+	// A private helper that advances the read index without zeroing first (it only does the index arithmetic) leaves the
+	// zeroing to its callers: when every call of it is known, the call counts as the advance and the obligation is decided
+	// at each call site instead of inside the helper.
+	bare := map[*ssa.Function]bool{}
+	advsOf := func(fn *ssa.Function) []ssa.Instruction {
 		var advs []ssa.Instruction
 		ir.Instrs(fn, func(in ssa.Instruction) {
-			if _, ok := k.idxStore(in, rIdx); ok {
+			if _, ok := k.idxStore(in, rIdx); ok && !k.isFoldStore(in, rIdx) {
+				// (index = index - len(buf) names the same slot of the ring: it consumes nothing, R2 decides whether it is valid)
+				advs = append(advs, in)
+			}
+			if ci, ok := in.(ssa.CallInstruction); ok && bare[ir.StaticCallee(ci)] {
 				advs = append(advs, in)
 			}
 		})
+		return advs
+	}
+	unzeroedFromEntry := func(fn *ssa.Function, adv ssa.Instruction) bool {
+		w, err := (ir.Query{Fn: fn, Block: zeroing, Target: func(x ssa.Instruction) bool { return x == adv }}).Find()
+		return w != nil || err != nil
+	}
+	for round, changed := 0, true; changed && round < 4; round++ {
+		changed = false
+		for _, fn := range scope {
+			if bare[fn] || !k.callSites(fn).complete {
+				continue
+			}
+			for _, adv := range advsOf(fn) {
+				if unzeroedFromEntry(fn, adv) {
+					bare[fn] = true
+					changed = true
+					break
+				}
+			}
+		}
+	}
+	for _, fn := range scope {
+		c.Saw(fn)
+		// R1
+		advs := advsOf(fn)
 		for _, adv := range advs {
 			adv := adv
 			q := ir.Query{Fn: fn, Block: zeroing, Target: func(x ssa.Instruction) bool { return x == adv }}
-			ok := c.NoPath("C14.R1", "zeroed before read index advances", adv, q, "the read index advances although the consumed slots were not overwritten with the zero value: the buffer keeps references to consumed values")
+			ok := true
+			if !(bare[fn] && unzeroedFromEntry(fn, adv)) { // (else: decided at the call sites of fn)
+				ok = c.NoPath("C14.R1", "zeroed before read index advances", adv, q, "the read index advances although the consumed slots were not overwritten with the zero value: the buffer keeps references to consumed values")
+			}
 			if ok {
 				// also from one advance to the next (loop iterations)
 				for _, prev := range advs {
@@ -741,15 +782,22 @@ func runC14(c *Ctx) {
 			}
 		}
 		// R2
-		for _, f := range []*types.Var{rIdx, wIdx} {
+		for fi, f := range []*types.Var{rIdx, wIdx} {
 			f := f
+			other := []*types.Var{wIdx, rIdx}[fi]
 			ir.Instrs(fn, func(in ssa.Instruction) {
+				if k.isReset(in, f) && !k.resetAtEnd(in, f, other) {
+					// (reported only when it fails, like the next-iteration clause of R1: on the wrap edge the reset is part of
+					// the advance it belongs to)
+					c.Decide("C14.R2", fn, "index reset only at the end of the array ("+f.Name()+")", in, false,
+						"the index is set back to 0 at a place where it is not known to have reached len(buf) (no ==/>= len(buf) edge): the slots between it and the end of the array are skipped (read index) or left out (write index), Len() jumps")
+				}
 				v, ok := k.idxStore(in, f)
 				if !ok {
 					return
 				}
 				recv, _, _ := storeToField(in, f)
-				if k.validSlot(v, ir.Facts(in.Block()), recv, 0) {
+				if k.validSlot(v, ir.Facts(in.Block()), recv, 0) || k.slotLin(in, v) {
 					c.Decide("C14.R2", fn, "index advance wraps ("+f.Name()+")", in, true, "")
 					return
 				}
@@ -933,7 +981,7 @@ func runC14(c *Ctx) {
 		var lds []*ssa.UnOp
 		ir.Instrs(at, func(in ssa.Instruction) {
 			if u, ok := in.(*ssa.UnOp); ok && u.Op == token.MUL {
-				if ia, ok := u.X.(*ssa.IndexAddr); ok && isBufLoad(ia.X) {
+				if ia, ok := u.X.(*ssa.IndexAddr); ok && k.bufDerivedOrNil(ia.X) {
 					lds = append(lds, u)
 				}
 			}
@@ -968,87 +1016,134 @@ func runC14(c *Ctx) {
 	c.R.Floor("C14.R3", 6)
 
 	// R6 request arguments are clamped against Len() before they enter index arithmetic
-	for _, fn := range scope {
-		if fn.Parent() != nil {
-			continue // a function literal: its parameters are not a caller's request
-		}
-		prms := fn.Params
-		if fn.Signature.Recv() != nil && len(prms) > 0 {
-			prms = prms[1:]
-		}
-		for _, prm := range prms {
-			if !types.Identical(prm.Type(), types.Typ[types.Int]) || fn == at {
-				continue
-			}
-			// values derived from the parameter through phis and subtraction of consumed counts
-			derived := map[ssa.Value]bool{prm: true}
-			for changed := true; changed; {
-				changed = false
-				ir.Instrs(fn, func(in ssa.Instruction) {
-					v, ok := in.(ssa.Value)
-					if !ok || derived[v] {
-						return
-					}
-					switch x := in.(type) {
-					case *ssa.Phi:
-						for _, e := range x.Edges {
-							if derived[e] {
-								derived[v] = true
-								changed = true
-							}
-						}
-					case *ssa.BinOp:
-						if x.Op == token.SUB && derived[x.X] {
+	// values derived from the parameter through phis and subtraction of consumed counts
+	derivedOf := func(fn *ssa.Function, prm *ssa.Parameter) map[ssa.Value]bool {
+		derived := map[ssa.Value]bool{prm: true}
+		for changed := true; changed; {
+			changed = false
+			ir.Instrs(fn, func(in ssa.Instruction) {
+				v, ok := in.(ssa.Value)
+				if !ok || derived[v] {
+					return
+				}
+				switch x := in.(type) {
+				case *ssa.Phi:
+					for _, e := range x.Edges {
+						if derived[e] {
 							derived[v] = true
 							changed = true
 						}
 					}
-				})
-			}
-			var bounded func(v ssa.Value, from, to *ssa.BasicBlock, depth int) bool
-			bounded = func(v ssa.Value, from, to *ssa.BasicBlock, depth int) bool {
-				if depth > 6 {
-					return false
-				}
-				if !derived[v] {
-					return true // Len(), indices, constants
-				}
-				var facts []ir.Fact
-				if from != nil {
-					facts = append(ir.Facts(from), edgeFacts(from, to)...)
-				} else if in, ok := v.(ssa.Instruction); ok {
-					facts = ir.Facts(in.Block())
-				}
-				for _, f := range facts {
-					cm, ok := f.Cmp()
-					if !ok {
-						continue
-					}
-					op, a, b := cm.Op, cm.X, cm.Y
-					if b == v {
-						a, b = b, a
-						op = ir.SwapOp(op)
-					}
-					if a == v && (op == token.LEQ || op == token.LSS) && (lenCall(b) || isLenBuf(b)) {
-						return true
+				case *ssa.BinOp:
+					if x.Op == token.SUB && derived[x.X] {
+						derived[v] = true
+						changed = true
 					}
 				}
-				if p, ok := v.(*ssa.Phi); ok {
-					for i, e := range p.Edges {
-						if e == v {
-							continue
-						}
-						if !bounded(e, p.Block().Preds[i], p.Block(), depth+1) {
-							return false
-						}
-					}
-					return true
-				}
-				if bo, ok := v.(*ssa.BinOp); ok && bo.Op == token.SUB {
-					return bounded(bo.X, from, to, depth+1)
-				}
+			})
+		}
+		return derived
+	}
+	mkBounded := func(derived map[ssa.Value]bool) func(v ssa.Value) bool {
+		var bounded func(v ssa.Value, from, to *ssa.BasicBlock, depth int) bool
+		bounded = func(v ssa.Value, from, to *ssa.BasicBlock, depth int) bool {
+			if depth > 6 {
 				return false
 			}
+			if !derived[v] {
+				return true // Len(), indices, constants
+			}
+			var facts []ir.Fact
+			if from != nil {
+				facts = append(ir.Facts(from), edgeFacts(from, to)...)
+			} else if in, ok := v.(ssa.Instruction); ok {
+				facts = ir.Facts(in.Block())
+			}
+			for _, f := range facts {
+				cm, ok := f.Cmp()
+				if !ok {
+					continue
+				}
+				op, a, b := cm.Op, cm.X, cm.Y
+				if b == v {
+					a, b = b, a
+					op = ir.SwapOp(op)
+				}
+				// (the bound may be any quantity of the buffer state that cannot exceed len(buf): the count then cannot overflow)
+				if a == v && (op == token.LEQ || op == token.LSS) && (lenCall(b) || isLenBuf(b) || (!derived[b] && k.leBufLen(b, facts, 0))) {
+					return true
+				}
+			}
+			if p, ok := v.(*ssa.Phi); ok {
+				for i, e := range p.Edges {
+					if e == v {
+						continue
+					}
+					if !bounded(e, p.Block().Preds[i], p.Block(), depth+1) {
+						return false
+					}
+				}
+				return true
+			}
+			if bo, ok := v.(*ssa.BinOp); ok && bo.Op == token.SUB {
+				return bounded(bo.X, from, to, depth+1)
+			}
+			return false
+		}
+		return func(v ssa.Value) bool { return bounded(v, nil, nil, 0) }
+	}
+	intParams := func(fn *ssa.Function) []*ssa.Parameter {
+		prms := fn.Params
+		if fn.Signature.Recv() != nil && len(prms) > 0 {
+			prms = prms[1:]
+		}
+		var res []*ssa.Parameter
+		for _, prm := range prms {
+			if types.Identical(prm.Type(), types.Typ[types.Int]) {
+				res = append(res, prm)
+			}
+		}
+		return res
+	}
+	// internalCount: prm belongs to a private helper all of whose calls are known, and no call passes it a caller's request
+	// that is still unclamped there: the helper computes with a count the ring itself produced, the request was dealt with
+	// in the caller (where this rule looks at it). At is exempt as a caller for the reason it is exempt itself: R3 decides
+	// its range check.
+	internalCount := func(fn *ssa.Function, prm *ssa.Parameter) bool {
+		sites := k.callSites(fn)
+		i := c14paramIndex(prm)
+		if !sites.complete || i < 0 {
+			return false
+		}
+		for _, ci := range sites.calls {
+			h := ci.Parent()
+			args := ci.Common().Args
+			if h == nil || i >= len(args) {
+				return false
+			}
+			if h == at {
+				continue
+			}
+			a := args[i]
+			for _, q := range intParams(h) {
+				d := derivedOf(h, q)
+				if d[a] && !mkBounded(d)(a) {
+					return false
+				}
+			}
+		}
+		return true
+	}
+	for _, fn := range scope {
+		if fn.Parent() != nil {
+			continue // a function literal: its parameters are not a caller's request
+		}
+		for _, prm := range intParams(fn) {
+			if fn == at || internalCount(fn, prm) {
+				continue
+			}
+			derived := derivedOf(fn, prm)
+			bounded := mkBounded(derived)
 			ir.Instrs(fn, func(in ssa.Instruction) {
 				bo, ok := in.(*ssa.BinOp)
 				if !ok || (bo.Op != token.ADD && bo.Op != token.MUL) {
@@ -1068,7 +1163,7 @@ func runC14(c *Ctx) {
 					if !isR && !isW && !isLenBuf(other) {
 						continue
 					}
-					c.Decide("C14.R6", fn, "requested count clamped to Len() before index arithmetic", in, bounded(o, nil, nil, 0),
+					c.Decide("C14.R6", fn, "requested count clamped to Len() before index arithmetic", in, bounded(o),
 						"the caller's count enters index arithmetic without being clamped to Len(): a huge argument overflows (negative slice bound, panic) instead of moving min(requested, Len) elements")
 				}
 			})
@@ -1124,30 +1219,56 @@ func runC14(c *Ctx) {
 			_, xw := loadOfField(x, k.wIdx)
 			_, yr := loadOfField(y, k.rIdx)
 			_, yw := loadOfField(y, k.wIdx)
-			return op == token.NEQ && ((xr && yw) || (xw && yr))
+			// the indices differ: tested as such, or known by their strict order (empty means read index == write index)
+			return (op == token.NEQ || op == token.LSS || op == token.GTR) && ((xr && yw) || (xw && yr))
+		}
+		// (a test made by a boolean or classifying helper of the package counts with what it establishes)
+		nonEmptyX := func(f ir.Fact) bool {
+			for _, g := range k.expandFacts([]ir.Fact{f}, 0) {
+				if nonEmpty(g) {
+					return true
+				}
+			}
+			return false
 		}
 		n := 0
 		for _, fn := range scope {
 			fn := fn
 			ir.Instrs(fn, func(in ssa.Instruction) {
 				sl, ok := in.(*ssa.Slice)
-				if !ok || !k.bufDerived(sl.X) || sl.Low == nil || sl.High == nil {
+				if !ok || !k.bufDerived(sl.X) || sl.Low == nil {
 					return
 				}
 				if _, isR := loadOfField(sl.Low, k.rIdx); !isR {
 					return
 				}
-				toW := false
-				for _, o := range ir.Origins(sl.High) {
-					if _, isW := loadOfField(o, k.wIdx); isW {
-						toW = true
+				// how the segment ends: at the write index, at the end of the array, or at one of the two
+				toW, toEnd := false, sl.High == nil
+				if sl.High != nil {
+					for _, o := range ir.Origins(sl.High) {
+						if _, isW := loadOfField(o, k.wIdx); isW {
+							toW = true
+						}
+						if k.isLenBuf(o) {
+							toEnd = true
+						}
 					}
 				}
-				if !toW {
+				switch {
+				case toW && sl.High != nil && !k.segmentEndsAtWriteIndexOnly(sl):
+					// the end is chosen between the write index and something else by the value of High (as before)
+				case toW:
+					// buf[r:w] and nothing else: with read index == write index this is the empty segment. The hazard of R7
+					// is the alternative "up to the end of the array"; where the choice is made by a branch, that
+					// alternative is a segment of its own and is looked at below
+					return
+				case toEnd && k.orderGuarded(in.Block()):
+					// "up to the end of the array", selected by a branch on the order of the indices
+				default:
 					return
 				}
 				n++
-				q := ir.Query{Fn: fn, BlockFact: nonEmpty, Target: func(x ssa.Instruction) bool { return x == in }}
+				q := ir.Query{Fn: fn, BlockFact: nonEmptyX, Target: func(x ssa.Instruction) bool { return x == in }}
 				bad := ""
 				if w, err := q.Find(); err != nil || w != nil {
 					bad = "from the entry of " + fn.Name()
@@ -1291,6 +1412,9 @@ func (k *c14) foldOperator(fn *ssa.Function, lds []*ssa.UnOp) {
 	if len(folded) == 0 {
 		if modulo {
 			c.Decide("C14.R5", fn, "fold selected by >= len(buf)", first, true, "")
+			return
+		}
+		if k.foldLinear(fn, lds, first) {
 			return
 		}
 		c.Undecided("C14.R5", fn, "fold selected by >= len(buf)", first, "no fold by len(buf) found in the element index of At (x - phi(0,len(buf)), phi(x, x-len(buf)), a load at x-len(buf), x % len(buf))")
